@@ -580,8 +580,11 @@ func ToEntry(n Node) (e *Entry) {
 	if e := ms.getEntryCache(n); e != nil {
 		return e
 	}
-	// (Runs last: the groupings defined in what has just been converted.)
-	defer ms.convertDefined()
+	if m, ok := n.(*Module); ok {
+		// (Runs last: the groupings defined anywhere in this module or
+		// submodule, for their errors.)
+		defer ms.convertDefined(m, &e)
+	}
 	if _, ok := n.(*Grouping); ok {
 		if !ms.enterEntry(n) {
 			return newError(n, "grouping %s uses itself", n.NName())
@@ -800,8 +803,8 @@ func ToEntry(n Node) (e *Entry) {
 		case "grouping":
 			for _, a := range fv.Interface().([]*Grouping) {
 				// We just want to parse the grouping to collect
-				// errors -- as soon as no grouping is under way.
-				ms.deferDefined(e, a)
+				// errors -- once the module has been converted.
+				ms.deferDefined(a)
 			}
 		case "import":
 			// Import only makes types and such available.
